@@ -20,8 +20,12 @@ pub fn doc_text(classes: usize, flavour: u64) -> String {
 }
 
 pub fn request_params(kind: &str, uri: &str) -> (String, Value) {
+    request_params_at(kind, uri, 1, 7)
+}
+
+pub fn request_params_at(kind: &str, uri: &str, line: usize, character: usize) -> (String, Value) {
     let td = json!({"uri": uri});
-    let pos = json!({"line": 1, "character": 7});
+    let pos = json!({"line": line, "character": character});
     match kind {
         "documentSymbol" => ("textDocument/documentSymbol".into(), json!({"textDocument": td})),
         "definition" => ("textDocument/definition".into(), json!({"textDocument": td, "position": pos})),
@@ -81,6 +85,25 @@ fn run_burst(case: &Case) -> Verdict {
         c.shutdown();
         return Verdict::Skip("initialize-failed");
     }
+    // "wide": the root includes many small files and mentions their classes many times, so that the
+    // diagnostics task (one vfs read per file) and the location conversion of a request overlap for long
+    let wide = case["wide"].as_array().map(|w| (w.first().and_then(|x| x.as_u64()).unwrap_or(50) as usize, w.get(1).and_then(|x| x.as_u64()).unwrap_or(200) as usize));
+    if let Some((k, _)) = wide {
+        for j in 0..k {
+            tw.write(&format!("w{j}.td"), &format!("class W{j} {{ int v = {j}; }}\n"));
+        }
+    }
+    let wide_text = |k: usize, u: usize, version: i64| -> String {
+        let mut t = String::from("include \"inc.td\"\n");
+        for j in 0..k {
+            t.push_str(&format!("include \"w{j}.td\"\n"));
+        }
+        t.push_str(&format!("class C0<int a> : Base {{ int x{} = a; }}\n", version % 3));
+        for i in 0..u {
+            t.push_str(&format!("def u{i} : W{}, C0<{i}>;\n", i % k.max(1)));
+        }
+        t
+    };
     let mut version = 1;
     let mut outstanding: Vec<(i64, String)> = Vec::new();
     let mut opened = [false, false, false];
@@ -94,6 +117,7 @@ fn run_burst(case: &Case) -> Verdict {
                 let text = match d {
                     // now and then the root drops its include (the included file leaves the workspace)
                     0 if faulty && version % 4 == 0 => format!("class Base;\n{}{}", doc_text(classes, version as u64 % 3).replacen("include \"inc.td\"\n", "", 1), fault(version)),
+                    0 if wide.is_some() => wide_text(wide.unwrap().0, wide.unwrap().1, version),
                     0 => format!("{}{}", doc_text(classes, version as u64 % 3), fault(version)),
                     1 => format!("class Base {{ int b = {version}; }}\n{}", fault(version)),
                     _ => format!("class Other {{ int o = {version}; }}\n{}", fault(version)),
@@ -110,7 +134,11 @@ fn run_burst(case: &Case) -> Verdict {
             }
             "req" => {
                 let target = if opened[d] { d } else if opened[0] { 0 } else { continue };
-                let (m, p) = request_params(op[2].as_str().unwrap_or("documentSymbol"), &uris[target]);
+                // in a wide root the position is the name of the class every def derives from
+                let (m, p) = match wide {
+                    Some((k, _)) if target == 0 => request_params_at(op[2].as_str().unwrap_or("documentSymbol"), &uris[target], k + 1, 7),
+                    _ => request_params(op[2].as_str().unwrap_or("documentSymbol"), &uris[target]),
+                };
                 let id = c.send_request(&m, p);
                 outstanding.push((id, m));
             }
@@ -121,6 +149,11 @@ fn run_burst(case: &Case) -> Verdict {
                 }
             }
             "pause" => std::thread::sleep(Duration::from_micros(op[1].as_u64().unwrap_or(100).min(20_000))),
+            // go on the moment the server starts publishing (its diagnostics task is then in the middle
+            // of its per-file loop); a timeout just goes on
+            "await-publish" => {
+                let _ = c.wait_for_notification("textDocument/publishDiagnostics", Duration::from_secs(20));
+            }
             _ => {}
         }
     }
@@ -379,7 +412,7 @@ impl Property for C08 {
         "C08"
     }
     fn rule(&self) -> String {
-        "the real Server (router + lifecycle + concurrency layers) in-process over an in-memory pipe. Controlled part: per scenario - handler under test in {change root, change included document, open included document, re-send identical text, close root} against the still-parked diagnostics task of the previous notification and {no request | one of the 8 request kinds | thorough: every pair of request kinds} - every interleaving of the schedule points (verif hooks) with at most 1 preemption (thorough: 3) is enumerated by stateless DFS; a released thread that does not reach its next point is classified running/blocked from /proc; deadlock = no actor can be released while some are blocked. Uncontrolled part: bursts of 3..9 operations (didOpen/didChange/didClose of a root, its included document and a third independent document back to back, each of the 8 request kinds, sub-3ms pauses) on documents of 1..300 classes, half of them with documents that carry diagnostics and a root that sometimes drops its include (files with published problems leave the workspace); all 8x2 change-then-request pairs and 8x5x2 workspace-switch sequences enumerated; every request and a final barrier request must be answered; a missing answer is a deadlock only with evidence (all server threads asleep with unchanged context-switch counters over 4 samples), else inconclusive. distinct = digest of the schedule / operation list; non-trivial = a step at which the handler and a task could both be released (controlled), >=2 document notifications in flight with >=1 request (bursts)".into()
+        "the real Server (router + lifecycle + concurrency layers) in-process over an in-memory pipe. Controlled part: per scenario - handler under test in {change root, change included document, open included document, re-send identical text, close root} against the still-parked diagnostics task of the previous notification and {no request | one of the 8 request kinds | thorough: every pair of request kinds} - every interleaving of the schedule points (verif hooks) with at most 1 preemption (thorough: 3) is enumerated by stateless DFS; a released thread that does not reach its next point is classified running/blocked from /proc; deadlock = no actor can be released while some are blocked. Uncontrolled part: bursts of 3..9 operations (didOpen/didChange/didClose of a root, its included document and a third independent document back to back, each of the 8 request kinds, sub-3ms pauses) on documents of 1..300 classes, half of them with documents that carry diagnostics and a root that sometimes drops its include (files with published problems leave the workspace); all 8x2 change-then-request pairs, 8x5x2 workspace-switch sequences and 40 wide-workspace sequences (a root with 40 or 300 includes and 200 or 3000 uses of one class; references / definition / documentLink / documentSymbol requests in flight; the next edit sent the moment publishing starts) enumerated; every request and a final barrier request must be answered; a missing answer is a deadlock only with evidence (all server threads asleep with unchanged context-switch counters over 4 samples), else inconclusive. distinct = digest of the schedule / operation list; non-trivial = a step at which the handler and a task could both be released (controlled), >=2 document notifications in flight with >=1 request (bursts)".into()
     }
     fn assumptions(&self) -> Vec<String> {
         vec!["OS scheduling decides the interleaving in the uncontrolled part; liveness is checked as 'answers within the patience window', blocked-thread evidence from /proc/self/task".into()]
@@ -446,6 +479,29 @@ impl Property for C08 {
                             let ops = json!([["open", a], ["open", b], ["change", b], ["req", b, r], ["change", a], ["change", a], ["req", a, r]]);
                             if !emit(json!({"kind": "burst", "classes": classes, "faulty": true, "ops": ops})) {
                                 return;
+                            }
+                        }
+                    }
+                }
+            })
+            .exhaustive(),
+            // a root with many includes and many uses: requests whose answers name many locations
+            // (references, definition, documentLink) are in flight together with the diagnostics task
+            // when the next edit arrives
+            Family::new("wide-workspace-bursts", 1, |_c, _r, emit| {
+                for (k, u) in [(40, 200), (300, 3000)] {
+                    for r in ["references", "definition", "documentLink", "documentSymbol"] {
+                        for shape in 0..3 {
+                            let ops = match shape {
+                                0 => json!([["open", 0], ["req", 0, r], ["req", 0, r], ["req", 0, r], ["await-publish"], ["change", 0], ["req", 0, r], ["await-publish"], ["change", 0], ["req", 0, r]]),
+                                1 => json!([["open", 0], ["req", 0, r], ["pause", 2000], ["change", 0], ["req", 0, r], ["change", 0]]),
+                                _ => json!([["open", 0], ["pause", 5000], ["req", 0, r], ["req", 0, "references"], ["change", 0], ["req", 0, r], ["close", 0]]),
+                            };
+                            // the race windows are real-time: the await-publish shape is tried three times
+                            for rep in 0..if shape == 0 { 3 } else { 1 } {
+                                if !emit(json!({"kind": "burst", "classes": 1, "wide": [k, u], "rep": rep, "ops": ops})) {
+                                    return;
+                                }
                             }
                         }
                     }
